@@ -5,14 +5,21 @@ from . import sha_ref
 SPEC = dict(
     level='exploration',
     rule='case = one message (chunk sweep: one of lengths 0..300 x {seeded, all-zero, all-0xff} content; rand: random length up to 70000; big: one long pattern message; '
-         'hmac: one key length 0..200 x content kind with message lengths {0,1,55,56,63,64,65,119,120,1000}; hmac-rand: random key <400 / message <3000). '
+         'hmac: one key length 0..200 x content kind with message lengths {0,1,55,56,63,64,65,119,120,1000}; hmac-rand: random key <400 / message <3000; '
+         'alias: calls whose 32-byte result buffer is (part of) an input buffer - case kind = index mod 6: hmac result == start of the key buffer (key lengths 0..200 in turn, buffer of '
+         'exactly max(len,32) bytes, 14 message lengths), hmac result overlapping the key / the message / both at arbitrary offsets of a shared exactly-sized block, '
+         'hash(data,n,result) with result inside data (lengths 0..300 in turn, result at start / end / middle), finalize() into the buffer the last update() read from). '
          'distinct = hash of (length, content kind, digest prefix, chunking shape); non-trivial = message length >= 1 (every hmac case is non-trivial). '
          'Online: the digest of EVERY chunking (all 2-way splits x 4 hasher states {fresh, reused after finalize, reset mid-message, reset after construction}, '
          '2-way splits with each piece in its own exactly-sized block, single-byte updates, zero-length updates, 1000 sampled (quick) / all (thorough) 3-way splits, '
          'random k-way splits up to 40 pieces) is compared byte-wise with the one-shot Sha256::hash digest of the same message. '
+         'Aliased calls: result == MAC/digest of copies of the inputs taken before the call (same call on the copies with a separate result buffer), every byte of the shared block '
+         'outside the result and every non-shared input unchanged; the aliased results are also recomputed offline. '
          'Offline: every one-shot digest and every MAC is recomputed with Python hashlib/hmac (vlib/sha_ref.py), which is itself anchored on FIPS 180-4 / RFC 4231 vectors.',
     assumptions=['ASan/UBSan red zones: messages, keys, pieces, the 32-byte digest destination and the hasher object live in exactly-sized heap blocks',
                  'Python hashlib.sha256 and hmac are the standard (self-checked against 12 published vectors at every run)',
+                 'aliasing result and input buffers is within the contract of hmac/hash/finalize: inputs are const pointers read as of the time of the call, nothing in the API forbids '
+                 'an in-place call (k = HMAC(k, info)) and the pinned implementation consumes every input before it writes the result',
                  'equality with the standard for chunked hashing is established transitively: chunked digest == one-shot digest (online) and one-shot digest == hashlib (offline)'],
     technique='reference-implementation comparison (online self-consistency + offline hashlib/hmac over a recorded log), exhaustive small sub-spaces',
     exhaustive={Q: True, T: True},
@@ -22,15 +29,23 @@ SPEC = dict(
         job('rand', 'h_sha', 'rand', cases={Q: 4000, T: 80000}, procs=16, rec=True),
         job('hmac', 'h_sha', 'hmac', cases=-1, procs=16, rec=True),
         job('hmac-rand', 'h_sha', 'hmac-rand', cases={Q: 4000, T: 200000}, procs=16, rec=True),
+        job('alias', 'h_sha', 'alias', cases={Q: 3618, T: 72360}, procs=16, rec=True),
         job('big', 'h_sha', 'big', cases={Q: 5, T: 7}, procs={Q: 5, T: 7}, rec=True, timeout=1200),
         job('vectors', 'h_sha', 'vectors', cases=-1, procs=1, rec=True),
     ],
     floors={Q: dict(digests=500000, updates=1500000, chunkings2=300000, chunkings3=500000, chunkings_k=10000, single_byte_runs=900, hmacs=10000,
                     hasher_reuse_after_finalize=100000, hasher_reset_mid_message=100000, offline_digests_compared=4900, offline_macs_compared=10000,
-                    offline_vectors_compared=12, long_messages=5, **{'set:padding_classes': 6, 'set:hmac_key_classes': 4, 'set:bit_length_classes': 2}),
+                    offline_vectors_compared=12, long_messages=5,
+                    alias_hmac_result_is_key_buffer=8000, alias_hmac_result_overlaps_key=3000, alias_hmac_result_in_middle_of_key=1000, alias_hmac_result_in_message_of_32_or_more=2000,
+                    alias_hmac_result_in_middle_of_message=1000, alias_hmac_shared_block=3000, alias_hmac_result_overlaps_key_and_message=300, alias_hash_result_in_data=3000,
+                    alias_finalize_into_last_input=3000, alias_results_compared=25000, alias_bytes_outside_result_compared=500000, offline_aliased_results_compared=20000,
+                    **{'set:padding_classes': 6, 'set:hmac_key_classes': 4, 'set:bit_length_classes': 2, 'set:alias_key_classes': 5}),
             T: dict(digests=14000000, updates=35000000, chunkings2=500000, chunkings3=13000000, chunkings_k=300000, single_byte_runs=900, hmacs=200000,
                     lengths_with_all_3way_splits=903, hasher_reuse_after_finalize=100000, hasher_reset_mid_message=100000,
                     offline_digests_compared=80000, offline_macs_compared=200000, offline_vectors_compared=12, long_messages=7,
-                    **{'set:padding_classes': 6, 'set:hmac_key_classes': 4, 'set:bit_length_classes': 4})},
+                    alias_hmac_result_is_key_buffer=160000, alias_hmac_result_overlaps_key=60000, alias_hmac_result_in_middle_of_key=20000, alias_hmac_result_in_message_of_32_or_more=40000,
+                    alias_hmac_result_in_middle_of_message=20000, alias_hmac_shared_block=60000, alias_hmac_result_overlaps_key_and_message=6000, alias_hash_result_in_data=60000,
+                    alias_finalize_into_last_input=60000, alias_results_compared=500000, alias_bytes_outside_result_compared=10000000, offline_aliased_results_compared=400000,
+                    **{'set:padding_classes': 6, 'set:hmac_key_classes': 4, 'set:bit_length_classes': 4, 'set:alias_key_classes': 5})},
     post=sha_ref.post,
 )
